@@ -66,6 +66,9 @@ func (p Package) uniqueName(lvl int) string {
 	return name
 }
 
+// depth is the highest level at which uniqueName still adds a path component.
+func (p Package) depth() int { return strings.Count(p.Path(), "/") }
+
 // stripVendorPath strips the vendor dir prefix from a package path.
 // For example we might encounter an absolute path like
 // github.com/foo/bar/vendor/github.com/pkg/errors which is resolved
